@@ -629,3 +629,171 @@ Proof.
       split; auto. blia.
     + split; auto. rewrite !budget_eq. blia.
 Qed.
+
+(** ** the unhooked consequences *)
+Lemma settle1_acct s s' os : settle1 s = Some (s', os) ->
+  Forall quiet_obs os /\ forall p, crun p (tasks s') = crun p (tasks s) /\ budget p s' <= budget p s.
+Proof.
+  intros H. split; [apply settle_obs_quiet; eapply settle1_obs; eauto|].
+  apply settle1_inv in H. intros p.
+  destruct H; try (split; [reflexivity|rewrite !budget_eq; blia]).
+  - split; [reflexivity|]. rewrite !budget_eq. cbn [tasks inq rd ch_in set hold_params]. rewrite H, H0.
+    unfold chin_params. cbn [flat_map]. rewrite count_bytes_app. cbn. lia.
+  - destruct (dequeue_counts p s) as (D1 & D2 & _). auto.
+Qed.
+
+Lemma settle_acct : forall fuel s acc s' os, settle fuel s acc = (s', os) ->
+  exists extra, os = acc ++ extra /\ Forall quiet_obs extra /\
+    forall p, crun p (tasks s') = crun p (tasks s) /\ budget p s' <= budget p s.
+Proof.
+  induction fuel as [|f IH]; cbn; intros s acc s' os H.
+  - injection H as <- <-. exists []. rewrite app_nil_r. repeat split; auto.
+  - destruct (settle1 s) as [[s1 os1]|] eqn:E.
+    + destruct (IH _ _ _ _ H) as (ex & -> & F & A). destruct (settle1_acct _ _ _ E) as [Q1 A1].
+      exists (os1 ++ ex). rewrite app_assoc. split; auto. split; [apply Forall_app; auto|].
+      intros p. destruct (A p), (A1 p). split; [congruence|lia].
+    + injection H as <- <-. exists []. rewrite app_nil_r. repeat split; auto.
+Qed.
+
+(** ** one window *)
+Definition window_shape (l : label) (os : list obs) : Prop :=
+  match l with
+  | LGate p _ => exists c extra, os = OGate p c :: extra /\ Forall quiet_obs extra
+  | _ => gates os = []
+  end.
+
+Lemma step_acct c s l s' os : reachf c s -> step s l = Some (s', os) ->
+  window_shape l os /\
+  forall p, cs p os + crun p (tasks s) = cg p os + crun p (tasks s') /\
+            cs p os + budget p s' <= budget p s + count_bytes p (label_params l).
+Proof.
+  intros R H. pose proof (reachf_inv _ _ R) as I.
+  apply step_decompose in H as (_ & s1 & os1 & Hr & Hs).
+  destruct (raw_acct _ _ _ _ I Hr) as [Sh A].
+  destruct Hs as [(_ & -> & ->)|(_ & Hs)].
+  - split; auto. destruct l; cbn in *; auto. destruct Sh as (cn & ->). exists cn, []. auto.
+  - apply settle_acct in Hs as (extra & -> & Q & B). split.
+    + destruct l; cbn in *; try (rewrite gates_app, Sh, (quiet_gates _ Q); reflexivity).
+      destruct Sh as (cn & ->). exists cn, extra. split; auto.
+    + intros p. destruct (A p) as [A1 A2]. destruct (B p) as [B1 B2].
+      destruct (quiet_counts p extra Q) as [Q1 Q2]. rewrite cs_app, cg_app, Q1, Q2, B1. split; lia.
+Qed.
+
+(** ** whole runs *)
+Lemma fed_params_env tr : fed_params (env_of tr) = flat_map label_params tr.
+Proof.
+  induction tr as [|l tr IH]; auto. unfold env_of, fed_params in *. cbn [filter flat_map].
+  destruct l; cbn [is_env flat_map label_params app]; rewrite IH; reflexivity.
+Qed.
+
+Lemma run_acct c : forall tr s s' oss, reachf c s -> run s tr = Some (s', oss) ->
+  forall p, cs p (concat oss) + crun p (tasks s) = cg p (concat oss) + crun p (tasks s') /\
+            cs p (concat oss) + budget p s' <= budget p s + count_bytes p (flat_map label_params tr).
+Proof.
+  induction tr as [|l r IH]; cbn [run]; intros s s' oss R H p.
+  - injection H as <- <-. cbn. split; lia.
+  - destruct (step s l) as [[s1 os]|] eqn:E; [|discriminate].
+    destruct (run s1 r) as [[s2 oss2]|] eqn:E2; [|discriminate]. injection H as <- <-.
+    destruct (step_acct _ _ _ _ _ R E) as [_ A]. destruct (A p) as [A1 A2].
+    destruct (IH _ _ _ (step_reachf _ _ _ _ _ R E) E2 p) as [B1 B2].
+    cbn [concat flat_map]. rewrite cs_app, cg_app, count_bytes_app. split; lia.
+Qed.
+
+Lemma budget_init c p : budget p (init_of c) = 0.
+Proof. reflexivity. Qed.
+
+(** * Soundness *)
+(* (a) no hypothesis: handler entries for params p never outnumber the fed members with params p *)
+Theorem start_count_le_fed c tr s oss p : run (init_of c) tr = Some (s, oss) ->
+  count_bytes p (starts (concat oss)) <= count_bytes p (fed_params (env_of tr)).
+Proof.
+  intros H. destruct (run_acct c _ _ _ _ (rf_init c) H p) as [_ B]. rewrite budget_init in B.
+  rewrite fed_params_env. unfold cs in B. lia.
+Qed.
+
+Theorem mon_start_once_sound c tr s oss : run (init_of c) tr = Some (s, oss) ->
+  mon_start_once (env_of tr) (concat oss) = true.
+Proof.
+  intros H. unfold mon_start_once. apply forallb_forall. intros p _. apply Nat.leb_le.
+  eapply start_count_le_fed; eauto.
+Qed.
+
+(* with the harness's unique tokens: no token starts its handler twice *)
+Theorem mon_start_distinct_sound c tr s oss : run (init_of c) tr = Some (s, oss) ->
+  unique_params (env_of tr) = true -> mon_start_distinct (env_of tr) (concat oss) = true.
+Proof.
+  intros H U. unfold mon_start_distinct. apply nodupb_count. intros p.
+  pose proof (start_count_le_fed c tr s oss p H). unfold unique_params in U.
+  pose proof (proj1 (nodupb_count _) U p). lia.
+Qed.
+
+(* the distinctness monitor is implied by the counting one on any pair of sequences *)
+Lemma mon_start_once_distinct env os : unique_params env = true -> mon_start_once env os = true ->
+  mon_start_distinct env os = true.
+Proof.
+  intros U M. unfold mon_start_distinct. apply nodupb_count. intros p.
+  destruct (count_bytes p (starts os)) as [|n] eqn:E; [lia|].
+  assert (I : In p (starts os)) by (apply count_bytes_in; lia).
+  unfold mon_start_once in M. rewrite forallb_forall in M. specialize (M _ I). apply Nat.leb_le in M.
+  pose proof (proj1 (nodupb_count _) U p). lia.
+Qed.
+
+(* (b) *)
+Lemma gate_scan_run c : forall tr s s' oss seen, reachf c s ->
+  (forall p, cs p seen = cg p seen + crun p (tasks s)) -> run s tr = Some (s', oss) ->
+  gate_scan seen (concat oss) = true.
+Proof.
+  induction tr as [|l r IH]; cbn [run]; intros s s' oss seen R Inv H.
+  - injection H as <- <-. reflexivity.
+  - destruct (step s l) as [[s1 os]|] eqn:E; [|discriminate].
+    destruct (run s1 r) as [[s2 oss2]|] eqn:E2; [|discriminate]. injection H as <- <-.
+    destruct (step_acct _ _ _ _ _ R E) as [Sh A].
+    cbn [concat]. rewrite gate_scan_app. apply andb_true_iff. split.
+    + destruct l; cbn in Sh; try (apply gate_scan_quiet; exact Sh).
+      destruct Sh as (cn & extra & -> & Qe). cbn [gate_scan].
+      rewrite (gate_scan_quiet extra) by (apply quiet_gates; auto).
+      rewrite andb_true_r. apply Nat.ltb_lt.
+      destruct (A params) as [A1 _]. specialize (Inv params).
+      rewrite cs_cons, cg_cons in A1. destruct (quiet_counts params extra Qe) as [Q1 Q2]. rewrite Q1, Q2 in A1.
+      unfold cs, cg in *. cbn in A1. rewrite beq_refl in A1. lia.
+    + eapply IH; [eapply step_reachf; eauto| |exact E2].
+      intros p. destruct (A p) as [A1 _]. specialize (Inv p).
+      rewrite cs_app, cg_app, cs_rev, cg_rev. lia.
+Qed.
+
+Theorem mon_gate_after_start_sound c tr s oss : run (init_of c) tr = Some (s, oss) ->
+  mon_gate_after_start (env_of tr) (concat oss) = true.
+Proof.
+  intros H. unfold mon_gate_after_start. eapply (gate_scan_run c); [apply rf_init| |exact H].
+  intros p. reflexivity.
+Qed.
+
+(** * Examples *)
+(* two messages: a call with token "[]" and, after it, a notification with token "[1]"; both run and return *)
+Definition ex_tr_mon : list label :=
+  ex_tr_delivered ++
+  [LFeed (FMsg (InMsgs false [ex_note [91;49;93]%N])); LRelRead; LRelNext; LRelBarrier; LRelAcquire 1;
+   LGate [91;49;93]%N (ORes [50%N]); LRelHandled 1].
+
+Example mon_start_once_nonvacuous :
+  run (init_of ex_cfg) ex_tr_mon <> None /\
+  unique_params (env_of ex_tr_mon) = true /\
+  starts (concat (obs_of ex_cfg ex_tr_mon)) = [[91;93]%N; [91;49;93]%N] /\
+  gates (concat (obs_of ex_cfg ex_tr_mon)) = [[91;93]%N; [91;49;93]%N] /\
+  mon_start_once (env_of ex_tr_mon) (concat (obs_of ex_cfg ex_tr_mon)) = true /\
+  mon_start_distinct (env_of ex_tr_mon) (concat (obs_of ex_cfg ex_tr_mon)) = true /\
+  mon_gate_after_start (env_of ex_tr_mon) (concat (obs_of ex_cfg ex_tr_mon)) = true.
+Proof. vm_compute. repeat split; auto. discriminate. Qed.
+
+(* sensitivity: a token that starts twice although it was fed once; a return without (or before) its entry *)
+Example mon_start_once_sensitive :
+  mon_start_once (env_of ex_tr_mon) [OStart [91;93]%N false; OGate [91;93]%N false; OStart [91;93]%N false] = false /\
+  mon_start_distinct (env_of ex_tr_mon) [OStart [91;93]%N false; OGate [91;93]%N false; OStart [91;93]%N false] = false /\
+  mon_start_once [LStart] [OStart [91;93]%N false] = false.
+Proof. vm_compute. repeat split; reflexivity. Qed.
+
+Example mon_gate_after_start_sensitive :
+  mon_gate_after_start [] [OGate [91;93]%N false; OStart [91;93]%N false] = false /\
+  mon_gate_after_start [] [OStart [91;93]%N false; OGate [91;93]%N false; OGate [91;93]%N false] = false /\
+  mon_gate_after_start [] [OStart [91;93]%N false; OGate [91;49;93]%N false] = false.
+Proof. vm_compute. repeat split; reflexivity. Qed.
